@@ -81,7 +81,9 @@ def dir_hashsums(dir: Path, alg: str = DEF_HASH_ALG) -> DirHashsums:
     """
     ret: Dict[str, Any] = {}
     for path in dir.rglob("*"):
-        is_file, is_sym = path.is_file(), path.is_symlink()
+        is_sym = path.is_symlink()
+        # NOTE: is_file follows symlinks, but symlinks must not be treated as files
+        is_file = path.is_file() and not is_sym
         relpath = path.relative_to(dir)
 
         fname = None
